@@ -48,7 +48,7 @@ def _pt():
 
 # ============================================================================ part 2: block graphs
 # graph = {"blocks": [(ops, succ)], "init": [slot], "start": i, "ns": #slots, "ne": #exprs}
-#   op   = ("s", slot) | ("l", slot, expr) | ("r", "return_"|"retsub"|"err") | ("o",)
+#   op   = ("s", slot) | ("l", slot, expr) | ("r", "return_"|"retsub"|"err") | ("i", slot) [int <slot>: index taken] | ("o",)
 #   succ = ("n",) | ("j", i) | ("c", t, f) | ("ct", t) | ("cf", f)     (ct/cf: conditional block, one edge unset)
 
 
@@ -68,6 +68,8 @@ def gen_graph(r, nb_max=7, ns_max=4):
                 ops.append(("l", r.randrange(ns), r.randrange(ne)))
             elif c < 0.87:
                 ops.append(("r", r.choice(["return_", "retsub", "err"])))
+            elif c < 0.94:
+                ops.append(("i", r.randrange(ns)))   # `int <slot>`: takes the index of a slot, writes nothing
             else:
                 ops.append(("o",))
         c = r.random()
@@ -145,6 +147,8 @@ def real_validate(g):
                 tops.append(TealOp(exprs[op[2]], Op.load, slots[op[1]]))
             elif op[0] == "r":
                 tops.append(TealOp(None, getattr(Op, op[1])))
+            elif op[0] == "i":
+                tops.append(TealOp(None, Op.int, slots[op[1]]))
             else:
                 tops.append(TealOp(None, Op.int, 7))
         bs.append(TealConditionalBlock(tops) if succ[0] in ("c", "ct", "cf") else TealSimpleBlock(tops))
@@ -280,6 +284,10 @@ class PGen:
         if d <= 0 or c < 0.3:
             k = r.random()
             if k < 0.45 and self.rvars:
+                if r.random() < 0.12:
+                    # the index of a variable's slot: a reference to the variable which neither reads nor writes it
+                    self.note("index")
+                    return ("index", r.choice(self.rvars))
                 return self.pick_load(di)
             if k < 0.6 and self.cur_sub is not None and self.cur_sub.params:
                 return ("param", 0)
@@ -491,7 +499,7 @@ def _calls(n, acc):
 
 
 def _vars_of(n, acc):
-    if isinstance(n, tuple) and n and n[0] in ("load", "store"):
+    if isinstance(n, tuple) and n and n[0] in ("load", "store", "index"):
         acc.add(n[1].uid)
     if isinstance(n, (tuple, list)):
         for x in n:
@@ -553,7 +561,7 @@ class Flow:
         """S: set of frozensets.  Returns (fallthrough, break, continue) state sets."""
         E = frozenset()
         t = n[0]
-        if t in ("int", "txn", "global", "param"):
+        if t in ("int", "txn", "global", "param", "index"):
             return S, E, E
         if t == "load":
             if S:
@@ -656,7 +664,7 @@ class Cfg:
         """append the code of n starting in the open block cur; return the open block where control continues
         (a fresh block without predecessors after an unconditional exit)"""
         t = n[0]
-        if t in ("int", "txn", "global", "param"):
+        if t in ("int", "txn", "global", "param", "index"):
             self.emit(cur, ("o",))
             return cur
         if t == "load":
@@ -821,6 +829,8 @@ def show(n, ind=0):
             return f"{n[1].name}.load#{n[2]}"
         if t == "store":
             return f"{n[1].name}.store({show(n[2])})"
+        if t == "index":
+            return f"{n[1].name}.index()"
         if t == "call":
             return f"{n[1].name}({', '.join(show(a) for a in n[2])})"
         if t == "seq":
